@@ -45,6 +45,10 @@ CHECKS = {
    "TLA+ law QuoteLaw of Meta.tla evaluated by TLC on line-token abstractions of (out(D), out('> '-prefixed D)) pairs recorded from the real library; workload = TLC-enumerated Slots.tla product, all short strings, spec examples with spec.json as expected side, repository and mutated documents",
    "Every tab/CR-free non-blank document of the Slots.tla product (19k), every string of length <= 3 over a 21-symbol alphabet, ~950 repository examples and 4000 (80000) mutated documents is converted plain and with '> ' in front of every line, 1 to 2 (3) levels deep, under {core, GFM} x {safe, unsafe, XHTML}; for the 652 spec examples the inner side is spec.json's HTML. 408k law instances quick; records are renamed injectively and deduplicated by shape, and TLC evaluates QuoteLaw on every distinct shape. The law is relational, so no expected output is needed.",
    "TLC, Json/IOUtils; line-level comparison (outputs of block rendering end in a newline; others are not judged)", "DESIGN.md 3.11, 5/C08"),
+ "C09": ("model_checking",
+   "TLA+ laws ConcatLaw / SameLaw of Meta.tla evaluated by TLC on line-token abstractions of outputs recorded from the real library; the side condition 'A does not end inside an open code/HTML block' is read from the real parse through the verif hook event EndOfInput; workload = exhaustive pairs of short block-structure strings + document pairs + definition blocks in every spelling and placement",
+   "ALL ordered pairs of the 269 (thorough: ~600) strings of length <= 3 over {'- ', '-', newline, 'a', two spaces, fence} plus hand-picked list/fence/quote endings (72k pairs), 40000 (600000) random pairs of Slots.tla / repository / mutated documents, and 6000+ (80000+) definition-mobility instances (10 definition spellings incl. <...> destinations, multi-line titles, with and without a final newline x 10 reference spellings x base documents) under core/GFM, safe/unsafe/XHTML. The open-block stack at end of input comes from the instrumented parser, so no pair is judged outside the statement's side condition. TLC evaluates the law on each distinct shape of the canonically renamed records.",
+   "TLC, Json/IOUtils; hook EndOfInput (-tags verif); '[' byte = link reference syntax", "DESIGN.md 3.11, 5/C09"),
 }
 
 NOT_YET = "check not built yet in this revision of /verif (see DESIGN.md section 5 for the planned TLA+ decision procedure)"
